@@ -21,6 +21,16 @@
  * array_init_copy, str_table_copy), objects o and c only; every answer is predicted by `sqfsmodel c19 unit`.
  */
 #include "config.h"
+/* Two configurations of /repo: NO_CUSTOM_ALLOC (every node of an rbtree is calloc'ed: what the sanitizers see best) and the
+ * DEFAULT one (`configure` without --disable-custom-alloc: nodes come from a pool allocator, lib/util/src/mempool.c, one
+ * pool per tree, released as a whole by munmap).  In the pool configuration mempool.c is #include'd here (and left out of
+ * the archive) so that the harness can tell which pool a node lives in. */
+#ifndef NO_CUSTOM_ALLOC
+#define C19_POOL 1
+#include "lib/util/src/mempool.c"
+#else
+#define C19_POOL 0
+#endif
 #include "lib/sqfs/src/frag_table.c"
 #include "lib/sqfs/src/id_table.c"
 #include "lib/sqfs/src/meta_reader.c"
@@ -53,6 +63,8 @@
 #include <sys/stat.h>
 #include <malloc.h>
 #include <zlib.h>
+#include <errno.h>
+#include <sys/mman.h>
 
 /* ------------------------------------------------------------------ allocation wrappers (failure injection) */
 void *__real_malloc(size_t);
@@ -60,14 +72,22 @@ void *__real_calloc(size_t, size_t);
 void *__real_realloc(void *, size_t);
 static long alloc_calls;          /* wrapped allocation calls since last reset */
 static long alloc_fail_at;        /* fail the k-th call (1-based), 0 = never */
-static int alloc_should_fail(void)
+static const char *alloc_failed_what = "-";	/* which kind of acquisition the injected failure hit */
+static int alloc_should_fail_(const char *what)
 {
 	++alloc_calls;
-	return alloc_fail_at != 0 && alloc_calls == alloc_fail_at;
+	if (alloc_fail_at != 0 && alloc_calls == alloc_fail_at) { alloc_failed_what = what; return 1; }
+	return 0;
 }
+#define alloc_should_fail() alloc_should_fail_(__func__ + 7)	/* "__wrap_" */
 void *__wrap_malloc(size_t n) { return alloc_should_fail() ? NULL : __real_malloc(n); }
 void *__wrap_calloc(size_t a, size_t b) { return alloc_should_fail() ? NULL : __real_calloc(a, b); }
 void *__wrap_realloc(void *p, size_t n) { return alloc_should_fail() ? NULL : __real_realloc(p, n); }
+/* the pool allocator's blocks (mem_pool_allocate -> create_pool -> mmap): only references from the objects linked here are
+   redirected, i.e. mempool.c; the C library and the sanitizer runtime map memory through their own internal calls */
+void *__real_mmap(void *, size_t, int, int, int, off_t);
+void *__wrap_mmap(void *a, size_t l, int p, int f, int fd, off_t o)
+{ if (alloc_should_fail()) { errno = ENOMEM; return MAP_FAILED; } return __real_mmap(a, l, p, f, fd, o); }
 /* the other resources a copy hook acquires: a duplicated descriptor (stdio_copy), codec state (gzip, zstd) */
 int __real_dup(int);
 int __wrap_dup(int fd) { if (alloc_should_fail()) { errno = EMFILE; return -1; } return __real_dup(fd); }
@@ -118,6 +138,7 @@ static int count_fds(void)
 }
 
 enum { K_COMP, K_IDT, K_FRAGT, K_FILE, K_META, K_DIR, K_DATA, K_XRD, K_XWR, K_WFILE,
+       K_NOCOPY,	/* a library object whose copy hook is NULL (sqfs_object_init(obj, destroy, NULL)): an input stream on a file */
        K_RBT, K_ARR, K_STRT };	/* the last three: the generic containers as units (objects o and c only, no sqfs_object_t) */
 #define IS_UNIT(k) ((k) >= K_RBT)
 #define NOBJ 4		/* o, c, t1, t2 */
@@ -153,6 +174,44 @@ static int target(const char *s)
 	return -1;
 }
 
+/* ------------------------------------------------------------------ pool configuration: who owns the nodes of a tree */
+#if C19_POOL
+static int in_pool(const mem_pool_t *m, const void *p)
+{
+	const pool_t *it;
+	if (!m) return 0;
+	for (it = m->pool_list; it; it = it->next)
+		if ((const unsigned char *)p >= it->data && (const unsigned char *)p <= it->limit) return 1;
+	return 0;
+}
+static int nodes_in(const mem_pool_t *m, const rbtree_node_t *n) { return !n || (in_pool(m, n) && nodes_in(m, n->left) && nodes_in(m, n->right)); }
+static int nodes_any_in(const mem_pool_t *m, const rbtree_node_t *n) { return n && (in_pool(m, n) || nodes_any_in(m, n->left) || nodes_any_in(m, n->right)); }
+static size_t pool_blocks(const mem_pool_t *m) { size_t k = 0; const pool_t *it; for (it = m ? m->pool_list : NULL; it; it = it->next) ++k; return k; }
+/* ` pool=own|alias|null nodes=in|out`: the copy has a pool of its own and every node of the copy lives in it (none in the original's) */
+static void pool_facts(char *buf, size_t n, const rbtree_t *o, const rbtree_t *c)
+{
+	snprintf(buf, n, " pool=%s nodes=%s", c->pool == NULL ? "null" : (c->pool == o->pool ? "alias" : "own"),
+		 (nodes_in(c->pool, c->root) && !nodes_any_in(o->pool == c->pool ? NULL : o->pool, c->root)) ? "in" : "out");
+}
+/* use-after-release canary: right after an object was released, fresh mappings of the pool block size are made and filled
+   with 0xA5 (the kernel hands the address range that was just unmapped out again): nodes that died with the released object's
+   pool then hold 0xA5A5... instead of leading to a fault only by luck.  Kept until the scenario ends. */
+#define NCANARY 64
+static void *canary[NCANARY]; static int ncanary;
+static void canary_stamp(void)
+{
+	int i;
+	for (i = 0; i < 3 && ncanary < NCANARY; ++i) {
+		void *p = __real_mmap(NULL, DEF_POOL_SIZE, PROT_READ | PROT_WRITE, MAP_PRIVATE | MAP_ANONYMOUS, -1, 0);
+		if (p != MAP_FAILED) { memset(p, 0xA5, DEF_POOL_SIZE); canary[ncanary++] = p; }
+	}
+}
+static void canary_release(void) { while (ncanary > 0) munmap(canary[--ncanary], DEF_POOL_SIZE); }
+#else
+#define canary_stamp() ((void)0)
+#define canary_release() ((void)0)
+#endif
+
 static size_t U_ks, U_vs, U_sz;	/* unit scenarios: key / value size of the tree, element size of the array */
 static int unit_setup(void);
 
@@ -172,6 +231,7 @@ static void *make_object(void)
 		unlink(p);
 		return f;
 	}
+	case K_NOCOPY: { sqfs_istream_t *st = NULL; if (sqfs_istream_open_file(&st, E.path, 0)) return NULL; return st; }
 	case K_META: return sqfs_meta_reader_create(E.file, E.cmp, E.super.inode_table_start, E.super.directory_table_start);
 	case K_DIR: return sqfs_dir_reader_create(&E.super, E.cmp, E.file, E.dirflags);
 	case K_DATA: {
@@ -211,16 +271,28 @@ static int setup(int argc, char **argv)	/* argv[0] = kind */
 	if (!strcmp(k, "comp") && argc >= 3) {
 		int id = sqfs_compressor_id_from_name(argv[1]);
 		int unc = argv[2][0] == 'u';
+		unsigned long bs = 8192;
 		E.kind = K_COMP;
 		if (id < 0) return -1;
-		if (sqfs_compressor_config_init(&E.ccfg, id, 8192, unc ? SQFS_COMP_FLAG_UNCOMPRESS : 0)) return -1;
-		/* optional non-default configuration: level, gzip window, extra flags */
+		for (i = 6; i < argc; ++i) if (!strncmp(argv[i], "bs=", 3)) bs = strtoul(argv[i] + 3, 0, 0);
+		if (sqfs_compressor_config_init(&E.ccfg, id, bs, unc ? SQFS_COMP_FLAG_UNCOMPRESS : 0)) return -1;
+		/* optional non-default configuration: level, gzip window, extra flags (gzip strategies, xz filters / extreme, lz4 hc,
+		   lzma extreme), then key=value: dict= lc= lp= pb= (xz, lzma), bs= (block size, above) */
 		if (argc >= 4 && strcmp(argv[3], "-")) E.ccfg.level = strtoul(argv[3], 0, 0);
 		if (argc >= 5 && strcmp(argv[4], "-") && id == SQFS_COMP_GZIP) E.ccfg.opt.gzip.window_size = strtoul(argv[4], 0, 0);
 		if (argc >= 6 && strcmp(argv[5], "-")) E.ccfg.flags |= strtoul(argv[5], 0, 0);
+		for (i = 6; i < argc; ++i) {
+			int xl = id == SQFS_COMP_XZ || id == SQFS_COMP_LZMA;
+			if (!strncmp(argv[i], "bs=", 3)) continue;
+			else if (xl && !strncmp(argv[i], "dict=", 5)) E.ccfg.opt.xz.dict_size = strtoul(argv[i] + 5, 0, 0);
+			else if (xl && !strncmp(argv[i], "lc=", 3)) E.ccfg.opt.xz.lc = strtoul(argv[i] + 3, 0, 0);
+			else if (xl && !strncmp(argv[i], "lp=", 3)) E.ccfg.opt.xz.lp = strtoul(argv[i] + 3, 0, 0);
+			else if (xl && !strncmp(argv[i], "pb=", 3)) E.ccfg.opt.xz.pb = strtoul(argv[i] + 3, 0, 0);
+			else return -1;
+		}
 		if (unc) {
 			sqfs_compressor_config_t c2;
-			sqfs_compressor_config_init(&c2, id, 8192, 0);
+			sqfs_compressor_config_init(&c2, id, bs, 0);
 			if (sqfs_compressor_create(&c2, &E.helper_cmp)) return -1;
 		}
 	} else if (!strcmp(k, "idtable")) E.kind = K_IDT;
@@ -228,6 +300,7 @@ static int setup(int argc, char **argv)	/* argv[0] = kind */
 	else if (!strcmp(k, "xwr")) { E.kind = K_XWR; if (argc >= 2) snprintf(E.tmpdir, sizeof(E.tmpdir), "%s", argv[1]); }
 	else if (!strcmp(k, "file") && argc >= 2) { E.kind = K_FILE; snprintf(E.path, sizeof(E.path), "%s", argv[1]); }
 	else if (!strcmp(k, "wfile") && argc >= 2) { E.kind = K_WFILE; snprintf(E.tmpdir, sizeof(E.tmpdir), "%s", argv[1]); }
+	else if (!strcmp(k, "nocopy") && argc >= 2) { E.kind = K_NOCOPY; snprintf(E.path, sizeof(E.path), "%s", argv[1]); }
 	else if (!strcmp(k, "meta") && argc >= 2) { E.kind = K_META; if (open_image(argv[1])) return -1; }
 	else if (!strcmp(k, "dir") && argc >= 3) { E.kind = K_DIR; E.dirflags = strtoul(argv[2], 0, 0); if (open_image(argv[1])) return -1; }
 	else if (!strcmp(k, "data") && argc >= 2) { E.kind = K_DATA; if (open_image(argv[1])) return -1; }
@@ -366,6 +439,17 @@ static const char *bufstate(const void *ob, const void *cb)
 	return "dup";
 }
 
+/* the root node of a tree: in the pool configuration it is not a malloc block (no size to compare) */
+static const char *nodestate(const void *ob, const void *cb)
+{
+#if C19_POOL
+	if (cb == NULL) return ob == NULL ? "null" : "lost";
+	return cb == ob ? "alias" : "dup";
+#else
+	return bufstate(ob, cb);
+#endif
+}
+
 /* a fresh buffer whose used part does not hold what the original's holds is reported as `differ` */
 static const char *bufstate_c(const void *ob, const void *cb, size_t used)
 {
@@ -442,7 +526,7 @@ static void probe(const void *o, const void *c, const rcsnap_t *s, char *buf, si
 	case K_DIR: { const sqfs_dir_reader_t *a = o, *b = c; const char *dc = "null";
 		if (a->flags & SQFS_DIR_READER_DOT_ENTRIES) {
 			hh_t x, y; hh_init(&x); hh_init(&y); hh_tree(&x, &a->dcache, a->dcache.root, 0); hh_tree(&y, &b->dcache, b->dcache.root, 0);
-			dc = bufstate(a->dcache.root, b->dcache.root);
+			dc = nodestate(a->dcache.root, b->dcache.root);
 			if ((!strcmp(dc, "dup") || !strcmp(dc, "trim")) && x.h != y.h) dc = "differ";
 		}
 		snprintf(buf + k, n - k, " bufs=%s,%s refs=%s,%s", dc, fl,
@@ -455,7 +539,7 @@ static void probe(const void *o, const void *c, const rcsnap_t *s, char *buf, si
 		const char *first = b->kv_block_first == NULL ? (a->kv_block_first == NULL ? "null" : "lost") : (b->kv_block_first == a->kv_block_first ? "alias" : "own");
 		const char *last = b->kv_block_last == NULL ? (a->kv_block_last == NULL ? "null" : "lost") : (b->kv_block_last == a->kv_block_last ? "alias" : "own");
 		const char *ctx = b->kv_block_tree.key_context == (void *)b ? "own" : (b->kv_block_tree.key_context == (void *)a ? "alias" : "other");
-		const char *tr = bufstate(a->kv_block_tree.root, b->kv_block_tree.root);
+		const char *tr = nodestate(a->kv_block_tree.root, b->kv_block_tree.root);
 		if (!strcmp(tr, "dup") || !strcmp(tr, "trim")) {
 			hh_t x, y; hh_init(&x); hh_init(&y); hh_tree(&x, &a->kv_block_tree, a->kv_block_tree.root, XWR_MASK); hh_tree(&y, &b->kv_block_tree, b->kv_block_tree.root, XWR_MASK);
 			if (x.h != y.h) tr = "differ";
@@ -696,6 +780,9 @@ static void op_dir(sqfs_dir_reader_t *d, int argc, char **argv)
 static void op_data(sqfs_data_reader_t *d, int argc, char **argv)
 {
 	sqfs_inode_generic_t *ino = NULL; char hb[128]; int r;
+	if (argc >= 1 && !strcmp(argv[0], "reload")) {	/* sqfs_data_reader_load_fragment_table again: drops the cached fragment block */
+		out("reload %d", sqfs_data_reader_load_fragment_table(d, &E.super)); return;
+	}
 	if (argc < 2 || (r = inode_of(argv[1], &ino)) != 0) { out("bad-op"); return; }
 	if (ino->base.type != SQFS_INODE_FILE && ino->base.type != SQFS_INODE_EXT_FILE) { out("not-a-file"); sqfs_free(ino); return; }
 	if (argc >= 4 && !strcmp(argv[0], "read")) {
@@ -705,6 +792,23 @@ static void op_data(sqfs_data_reader_t *d, int argc, char **argv)
 	} else if (argc >= 3 && !strcmp(argv[0], "block")) {
 		size_t sz = 0; sqfs_u8 *b = NULL; r = sqfs_data_reader_get_block(d, ino, strtoul(argv[2], 0, 0), &sz, &b);
 		put_bytes(hb, sizeof(hb), b, r ? 0 : sz); out("block %d %s", r, hb); sqfs_free(b);
+	} else if (argc >= 3 && !strcmp(argv[0], "stream")) {
+		/* a stream over the reader (sqfs_data_reader_create_stream): up to n rounds of get_buffered_data / advance_buffer
+		   (the tail of the file comes out of the reader's fragment cache) */
+		sqfs_istream_t *st = NULL; unsigned long rounds = strtoul(argv[2], 0, 0), i, j; size_t total = 0;
+		unsigned long long h = 1469598103934665603ULL;
+		r = sqfs_data_reader_create_stream(d, ino, "x", &st);
+		if (r) out("stream create %d", r);
+		else {
+			for (i = 0; i < rounds; ++i) {
+				const sqfs_u8 *p = NULL; size_t sz = 0;
+				r = st->get_buffered_data(st, &p, &sz, 1);
+				if (r) break;
+				for (j = 0; j < sz; ++j) { h ^= p[j]; h *= 1099511628211ULL; }
+				total += sz; st->advance_buffer(st, sz);
+			}
+			out("stream %d %zu %016llx", r, total, h); sqfs_drop(st);
+		}
 	} else if (!strcmp(argv[0], "frag")) {
 		size_t sz = 0; sqfs_u8 *b = NULL; r = sqfs_data_reader_get_fragment(d, ino, &sz, &b);
 		put_bytes(hb, sizeof(hb), b, r ? 0 : sz); out("frag %d %s", r, hb); sqfs_free(b);
@@ -797,12 +901,17 @@ static void unit_copy(long k)
 	switch (E.kind) {
 	case K_RBT: { rbtree_t *o = E.obj[0], *c = __real_malloc(sizeof(*c));
 		memset(c, 0x55, sizeof(*c));
+		char pf[64] = "";
+		alloc_failed_what = "-";
 		alloc_fail_at = k; ret = rbtree_copy(o, c); alloc_fail_at = 0;
-		if (ret) { out("copy %d zeroed=%d", ret, all_zero(c, sizeof(*c))); free(c); return; }
+		if (ret) { out("copy %d zeroed=%d%s%s", ret, all_zero(c, sizeof(*c)), C19_POOL ? " failed=" : "", C19_POOL ? alloc_failed_what : ""); free(c); return; }
 		E.obj[1] = c;
+#if C19_POOL
+		pool_facts(pf, sizeof(pf), o, c);
+#endif
 		if (c->key_size != o->key_size || c->key_size_padded != o->key_size_padded || c->value_size != o->value_size || c->key_compare != o->key_compare)
-			out("copy 0 kp=%zu alias=fields-differ", c->key_size_padded);
-		else out("copy 0 kp=%zu alias=%d", c->key_size_padded, (o->root && c->root == o->root) || tree_shares(o->root, c->root));
+			out("copy 0 kp=%zu alias=fields-differ%s", c->key_size_padded, pf);
+		else out("copy 0 kp=%zu alias=%d%s", c->key_size_padded, (o->root && c->root == o->root) || tree_shares(o->root, c->root), pf);
 		return; }
 	case K_ARR: { array_t *o = E.obj[0], *c = __real_malloc(sizeof(*c));
 		memset(c, 0x55, sizeof(*c));
@@ -844,6 +953,37 @@ static void op_unit(void *ob, int argc, char **argv)
 			else { printf("look %u ", n->value_offset); put_hex(n->data, t->key_size_padded + t->value_size);
 				printf(" key="); put_hex(rbtree_node_key(n), t->key_size); printf(" value="); put_hex(rbtree_node_value(n), t->value_size); putchar('\n'); fflush(stdout); }
 			free(a);
+		} else if (argc >= 3 && (!strcmp(argv[0], "bulk") || !strcmp(argv[0], "verify"))) {
+			/* large trees (several blocks of the pool allocator): n keys / values derived from (seed, i); `bulk` inserts them,
+			   `verify` looks every one of them up and compares the value bytes */
+			unsigned long n = strtoul(argv[1], 0, 0), seed = strtoul(argv[2], 0, 0), i, j, good = 0; int r = 0, ins = !strcmp(argv[0], "bulk");
+			unsigned char *k = __real_calloc(1, U_ks + 1), *v = __real_calloc(1, U_vs + 1);
+			for (i = 0; i < n && !r; ++i) {
+				unsigned long long x = (seed + 1) * 0x9E3779B97F4A7C15ULL + i * 0xD1B54A32D192ED03ULL;
+				for (j = 0; j < U_ks; ++j) k[j] = (unsigned char)((j < 4 ? (i >> (8 * (3 - j))) : (x >> (8 * (j % 8)))) & 0xff);	/* distinct: i in the first bytes */
+				for (j = 0; j < U_vs; ++j) v[j] = (unsigned char)(((x >> (8 * ((j + 3) % 8))) & 0xff) | 1);
+				if (ins) r = rbtree_insert(t, k, v);
+				else { rbtree_node_t *nd = rbtree_lookup(t, k); good += nd && nd->value_offset == t->key_size_padded && !memcmp(rbtree_node_key(nd), k, U_ks) && !memcmp(rbtree_node_value(nd), v, U_vs); }
+			}
+			if (ins) out("bulk %d %lu", r, i); else out("verify %lu", good);
+			free(k); free(v);
+		} else if (!strcmp(argv[0], "cmpcopy")) {
+			/* copy and original node for node (colour, value_offset, every byte of data[], shape), no node shared; in the pool
+			   configuration: every node of the copy in the copy's pool, and how many blocks that pool has */
+			rbtree_t *o = E.obj[0], *c = E.obj[1]; const rbtree_node_t *sa[256], *sb[256]; int sp = 0, same = 1; size_t nn = 0, len;
+			if (!o || !c) { out("no-object"); return; }
+			len = o->key_size_padded + o->value_size;
+			sa[sp] = o->root; sb[sp++] = c->root;
+			while (sp > 0 && same) { const rbtree_node_t *x = sa[--sp], *y = sb[sp];
+				if (!x || !y) { same = x == y; continue; }
+				++nn;
+				if (x == y || x->is_red != y->is_red || x->value_offset != y->value_offset || memcmp(x->data, y->data, len) || sp > 250) { same = 0; break; }
+				sa[sp] = x->left; sb[sp++] = y->left; sa[sp] = x->right; sb[sp++] = y->right; }
+#if C19_POOL
+			out("cmpcopy same=%d n=%zu nodes=%s blocks=%s", same, nn, (c->pool != o->pool && nodes_in(c->pool, c->root) && !nodes_any_in(o->pool, c->root)) ? "in" : "out", pool_blocks(c->pool) >= 2 ? "many" : "one");
+#else
+			out("cmpcopy same=%d n=%zu", same, nn);
+#endif
 		} else if (!strcmp(argv[0], "dump")) {
 			int first = 1, wf = 1; const rbtree_node_t *stack[128]; int sp = 0;
 			if (t->root) stack[sp++] = t->root;
@@ -931,6 +1071,13 @@ static void do_op(int t, int argc, char **argv)
 	case K_IDT: op_idt(ob, argc, argv); break;
 	case K_FRAGT: op_fragt(ob, argc, argv); break;
 	case K_FILE: case K_WFILE: op_file(ob, argc, argv); break;
+	case K_NOCOPY: {	/* `peek n`: the first bytes of the stream's buffer, nothing consumed */
+		sqfs_istream_t *st = ob; const sqfs_u8 *p = NULL; size_t sz = 0; char hb[128]; int r;
+		if (argc < 2 || strcmp(argv[0], "peek")) { out("bad-op"); break; }
+		r = st->get_buffered_data(st, &p, &sz, strtoul(argv[1], 0, 0));
+		if (r) { out("peek %d", r); break; }
+		if (sz > strtoul(argv[1], 0, 0)) sz = strtoul(argv[1], 0, 0);
+		put_bytes(hb, sizeof(hb), p, sz); out("peek 0 %s", hb); break; }
 	case K_META: op_meta(ob, argc, argv); break;
 	case K_DIR: op_dir(ob, argc, argv); break;
 	case K_DATA: op_data(ob, argc, argv); break;
@@ -955,18 +1102,37 @@ static void run_line(char *line)
 		if (IS_UNIT(E.kind)) { unit_copy(k); return; }
 		snap_refs(E.obj[0], &s);
 		E.file_rc_before = rc_of(E.file); E.cmp_rc_before = rc_of(E.cmp);
-		alloc_calls = 0; alloc_fail_at = k;
+		alloc_calls = 0; alloc_fail_at = k; alloc_failed_what = "-";
 		E.obj[1] = sqfs_copy(E.obj[0]);
 		used = alloc_calls; alloc_fail_at = 0;
-		if (!E.obj[1]) { out("copy NULL allocs=%ld fds=%+d", used, count_fds() - fds); return; }
+		if (!E.obj[1]) { out("copy NULL allocs=%ld fds=%+d failed=%s", used, count_fds() - fds, alloc_failed_what); return; }
 		probe(E.obj[0], E.obj[1], &s, pb, sizeof(pb));
+#if C19_POOL
+		if (E.kind == K_DIR && (((sqfs_dir_reader_t *)E.obj[0])->flags & SQFS_DIR_READER_DOT_ENTRIES))
+			pool_facts(pb + strlen(pb), sizeof(pb) - strlen(pb), &((sqfs_dir_reader_t *)E.obj[0])->dcache, &((sqfs_dir_reader_t *)E.obj[1])->dcache);
+		if (E.kind == K_XWR)
+			pool_facts(pb + strlen(pb), sizeof(pb) - strlen(pb), &((sqfs_xattr_writer_t *)E.obj[0])->kv_block_tree, &((sqfs_xattr_writer_t *)E.obj[1])->kv_block_tree);
+#endif
 		out("copy ok allocs=%ld fds=%+d %s", used, count_fds() - fds, pb);
+		return;
+	}
+	if (!IS_UNIT(E.kind) && (!strcmp(argv[0], "recopy") || (!strcmp(argv[0], "copydrop") && argc >= 2 && target(argv[1]) >= 0))) {
+		/* `recopy`: the copy is replaced by a copy of itself (copy of a copy; the first copy is released);
+		   `copydrop x`: one more copy of x is made while the others are alive, and released at once (two live copies) */
+		int re = !strcmp(argv[0], "recopy"), src = re ? 1 : target(argv[1]); void *tmp;
+		if (!E.obj[src]) { out("no-object"); return; }
+		tmp = sqfs_copy(E.obj[src]);
+		if (!tmp) { out("%s NULL", argv[0]); return; }
+		if (re) { sqfs_drop(E.obj[1]); E.obj[1] = tmp; } else sqfs_drop(tmp);
+		canary_stamp();
+		out("%s ok file=%zu cmp=%zu", argv[0], rc_of(E.file), rc_of(E.cmp));
 		return;
 	}
 	if (!strcmp(argv[0], "drop") && argc >= 2 && (t = target(argv[1])) >= 0) {
 		if (!E.obj[t]) { out("no-object"); return; }
-		if (IS_UNIT(E.kind)) { unit_release(t); out("drop"); return; }
+		if (IS_UNIT(E.kind)) { unit_release(t); canary_stamp(); out("drop"); return; }
 		sqfs_drop(E.obj[t]); E.obj[t] = NULL;
+		canary_stamp();
 		out("drop %s file=%zu cmp=%zu", argv[1], rc_of(E.file), rc_of(E.cmp));
 		return;
 	}
@@ -1011,11 +1177,12 @@ static void run_line(char *line)
 static void teardown(void)
 {
 	int i;
-	if (IS_UNIT(E.kind)) { unit_release(0); unit_release(1); return; }
+	if (IS_UNIT(E.kind)) { unit_release(0); unit_release(1); canary_release(); return; }
 	for (i = 0; i < NOBJ; ++i)
 		if (E.obj[i]) { sqfs_drop(E.obj[i]); E.obj[i] = NULL; }
 	sqfs_drop(E.helper_dir); sqfs_drop(E.helper_cmp); sqfs_drop(E.helper_file); sqfs_drop(E.helper_unc);
 	sqfs_drop(E.file); sqfs_drop(E.cmp);
+	canary_release();
 }
 
 /* ------------------------------------------------------------------ scenario runner */
@@ -1078,6 +1245,20 @@ int main(int argc, char **argv)
 			tok = strtok(hdr, " \n");		/* "scenario" */
 			tok = strtok(NULL, " \n");		/* tag */
 			while ((tok = strtok(NULL, " \n")) && ac < 16) av[ac++] = tok;
+			if (ac >= 2 && !strcmp(av[0], "selftest")) {
+				/* positive controls of the instrumentation: the run must be classified as what is provoked here */
+				char *volatile p = malloc(23);
+				out("selftest %s", av[1]);
+				if (!strcmp(av[1], "leak")) p = NULL;			/* the only pointer to the block is lost */
+				else if (!strcmp(av[1], "uaf")) { free(p); out("%d", p[3]); }
+				else if (!strcmp(av[1], "overflow")) { out("%d", p[23]); free(p); }
+				else if (!strcmp(av[1], "unmapped")) {	/* what a node of a destroyed pool is: memory given back with munmap */
+					char *volatile q = __real_mmap(NULL, 65536, PROT_READ | PROT_WRITE, MAP_PRIVATE | MAP_ANONYMOUS, -1, 0);
+					free(p); q[5] = 1; munmap(q, 65536); out("%d", q[5]);
+				} else free(p);
+				out("fds-at-end %+d", count_fds() - fd_base);
+				exit(0);
+			}
 			if (ac == 0 || setup(ac, av)) { out("setup-failed"); _exit(3); }
 			for (i = 0; i < n; ++i)
 				run_line(lines[i]);
